@@ -23,10 +23,33 @@ def place_fields(pl):
     return out
 
 
+CTOR_RE = re.compile(r"(^|::)Lexer::(new|new_with_state|new_from_iter|new_from_iter_with_state)$")
+
+
+def fresh_lexer_locals(body):
+    """Locals that hold a Lexer value returned by a constructor call in this very body (a temporary under
+    construction, e.g. the base of `Self { input, ..Lexer::new_from_iter_with_state(..) }`): taking
+    it apart is not an access to an existing lexer."""
+    out = set()
+    for bb in body["mir"]["blocks"]:
+        t = bb["term"]
+        if t["k"] == "call" and not t["dest"]["p"]:
+            c = norm_path(t.get("resp") or t["f"].get("path")) or ""
+            if CTOR_RE.search(c):
+                out.add(t["dest"]["l"])
+    return out
+
+
 def accesses(body):
     """(field, mode, span) for every syntactic access of a Lexer field in non-cleanup code.
     modes: write | mutborrow | read | move | drop"""
     out = []
+    fresh = fresh_lexer_locals(body)
+
+    def place_fields(pl, _pf=globals()["place_fields"]):     # shadows the module-level helper on purpose
+        if pl["l"] in fresh and pl["p"] and pl["p"][0] != "*":
+            return []
+        return _pf(pl)
 
     def op(o, span):
         pl = o.get("copy")
